@@ -31,6 +31,8 @@ type caseParams struct {
 	Hold  int // index into c05Holds: which of the two LFS servers holds which prunable candidate
 	// product "refkinds": lfs.fetchrecentremoterefs=false (unset = the documented default true)
 	NoRR bool
+	// product "zones": the TZ the prune process runs in ("" = UTC like everywhere else)
+	TZ string
 }
 
 // pruneRemote is the remote the statement calls "the prune remote": lfs.pruneremotetocheck, default origin
@@ -77,6 +79,19 @@ var c05Pats = map[string]func(pth string) bool{
 	"*.bin":   func(pth string) bool { return strings.HasSuffix(path.Base(pth), ".bin") }, // every LFS file of the worlds
 	"d":       func(pth string) bool { return strings.HasPrefix(pth, "d/") },              // a directory (the form git-lfs-fetch(1) documents)
 	"d/a.bin": func(pth string) bool { return pth == "d/a.bin" },                          // one file by its full path
+	"x":       func(pth string) bool { return c05HasDir(pth, "x") },                       // a directory (product renames)
+	"y":       func(pth string) bool { return c05HasDir(pth, "y") },                       // a directory (product renames)
+}
+
+// c05HasDir: some directory component of pth is named dir (gitignore(5): a pattern without a slash matches at any level)
+func c05HasDir(pth, dir string) bool {
+	parts := strings.Split(pth, "/")
+	for _, c := range parts[:len(parts)-1] {
+		if c == dir {
+			return true
+		}
+	}
+	return false
 }
 
 func (p caseParams) args() []string {
@@ -120,6 +135,9 @@ func (p caseParams) String() string {
 	}
 	if p.NoRR {
 		r += " fetchrecentremoterefs=false"
+	}
+	if p.TZ != "" {
+		r += " TZ=" + p.TZ
 	}
 	return r
 }
@@ -547,7 +565,11 @@ func c05Eval(wd *world, p caseParams) (o evalOut) {
 		o.Tool = err.Error()
 		return o
 	}
-	res := wd.w.RunIn(wd.repo, nil, []string{"GIT_CONFIG_GLOBAL=" + cfgFile}, filepath.Join(wd.w.BinDir, "git-lfs"), p.args()...)
+	runEnv := []string{"GIT_CONFIG_GLOBAL=" + cfgFile}
+	if p.TZ != "" {
+		runEnv = append(runEnv, "TZ="+p.TZ) // later entries win over the world's TZ=UTC
+	}
+	res := wd.w.RunIn(wd.repo, nil, runEnv, filepath.Join(wd.w.BinDir, "git-lfs"), p.args()...)
 	after := gitx.StoreOids(wd.lfsdir)
 	for oid := range before {
 		if !after[oid] {
